@@ -1984,6 +1984,10 @@ func (t *tScreen) UnregisterRuneFallback(orig rune) {
 }
 
 func (t *tScreen) CanDisplay(r rune, checkFallbacks bool) bool {
+	// the encoder is stateful and shared with the draw path, and the
+	// fallback map can be changed by RegisterRuneFallback
+	t.Lock()
+	defer t.Unlock()
 
 	if enc := t.encoder; enc != nil {
 		nb := make([]byte, 6)
